@@ -29,7 +29,8 @@ RULE = ("exhaustive enumeration: every member and alias name of every BaseXmlEnu
         "member through add_connector; every XL_CHART_TYPE member x chart-data shapes through "
         "add_chart, save and re-open; public-API set/get/re-open for the enum-typed properties. "
         "Non-trivial: the case exercises a member that has an XML token (or a shape/chart/"
-        "connector/table case); token-less members and rejection probes are counted as trivial. "
+        "connector/table case); token-less members, rejection probes and chart types outside the "
+        "documented-writable set (answered by NotImplementedError) are counted as trivial. "
         "All cases are distinct by construction.")
 ASSUMPTIONS = [
     "the XSDs under spec/ISO-IEC-29500-4/xsd and presetShapeDefinitions.xml under "
@@ -984,7 +985,9 @@ def run_job(job, seed, tier, rec, known):
         pairs = run_charts(cases, n_reopen=2 if tier == "thorough" else 1)
         for c in cases:
             rec.cls("chart:documented-writable" if c[0] in WRITABLE_CHART_TYPES else "chart:other-type")
-        rec.note_enum(len(cases), len(cases), sample=["chart", cases[0]])
+        # types answered with NotImplementedError only exercise the rejection: counted as trivial
+        rec.note_enum(len(cases), sum(1 for c in cases if c[0] in WRITABLE_CHART_TYPES),
+                      sample=["chart", cases[0]])
         return _collect_batch(pairs, "chart", rec, known)
     raise ValueError(k)
 
